@@ -1068,6 +1068,8 @@ def wrapper_chain(rep, ex: Explorer):
             if len(calls) != 1 or len(calls[0].args) != 1:
                 raise AnalysisError(f"{site}: {len(calls)} calls of parseCKB on a returning path")
             a = calls[0].args[0]
+            if type(a).__name__ == "NameV" and all(isinstance(x, str) for x in a.parts):
+                a = Const("".join(a.parts))
             if not (isinstance(a, Const) and isinstance(a.value, str)):
                 raise AnalysisError(f"{site}: the text handed to parseCKB is not a constant template around the query text ({a!r})"[:200])
             t = a.value
